@@ -4,6 +4,7 @@ import (
 	"os"
 	"strconv"
 	"strings"
+	"unicode/utf8"
 )
 
 type Match int
@@ -30,6 +31,15 @@ func (m Match) HasPrefix(s, prefix string) bool {
 
 func (m Match) TrimPrefix(s, prefix string) string {
 	if m.HasPrefix(s, prefix) {
+		if m == CASE_INSENSITIVE {
+			// lower-casing can change the byte length (`K` -> `k`): cut as many characters as the prefix has
+			offset := 0
+			for i := utf8.RuneCountInString(prefix); i > 0 && offset < len(s); i-- {
+				_, size := utf8.DecodeRuneInString(s[offset:])
+				offset += size
+			}
+			return s[offset:]
+		}
 		return s[len(prefix):]
 	}
 	return s
